@@ -5,6 +5,8 @@
 -/
 import HealSparse.Model.Api
 import HealSparse.Model.FitsIO
+import HealSparse.Model.ApiRes
+import HealSparse.Model.DegradeOnRead
 namespace HS
 
 /-- what a healsparse FITS file holds (decoded cells; the byte encoding is trusted) -/
@@ -61,5 +63,106 @@ def apiRead (f : FileObj) (pixels : Option (List Nat)) : Except Err MapObj := do
       | some s => pure s
       | none => throw .runtime
   pure { covord := f.covord, spord := f.spord, kind := kind, sent := f.sentinel, st := st }
+
+
+/-- `HealSparseMap.read(file, degrade_nside=…, reduction=…, pixels=…, weightfile=…)` -/
+def apiDegradeOnRead (f : FileObj) (ordOut : Nat) (red : String) (pixels : Option (List Nat))
+    (wf : Option FileObj) : Except Err MapObj := do
+  let c := cfgOf f.covord f.spord
+  let px ← match dorPixels c f.file pixels with
+    | some px => pure px
+    | none => throw .runtime
+  -- weight file: coverage checks (lines 387-398)
+  let useW ← match wf with
+    | some w =>
+      if red == "wmean" then
+        if w.covord != f.covord then throw .value
+        let wc := cfgOf w.covord w.spord
+        if !(px.all fun k => covered wc (⟨w.file.cov, w.file.data⟩ : State Val) k) then throw .value
+        pure true
+      else pure false
+    | none => pure false
+  if ordOut ≥ f.spord then throw .value
+  if f.bitpack then throw .notImpl
+  -- weight file: type checks (lines 448-463)
+  if useW then
+    match wf with
+    | some w =>
+      let isFloat := match parseDTCode w.arrDT with | some (.flt _) => true | _ => false
+      let boolSent := match w.sentinel with | .bool _ => true | _ => false
+      if w.spord != f.spord || w.arrDT == "rec" || w.wwidth.isSome || !isFloat || boolSent then throw .value
+    | none => pure ()
+  if ordOut < f.covord then throw .value
+  let g := 2 * (f.spord - ordOut)
+  let kind ← match fileKind f with
+    | some k => pure k
+    | none => throw .runtime
+  let vc : VCfg Val := ⟨kind.blank f.sentinel, kind.valid f.sentinel⟩
+  let mk (kindOut : Kind) (sentOut : Val) (st : Option (State Val)) : Except Err MapObj :=
+    match st with
+    | some st => pure { covord := f.covord, spord := ordOut, kind := kindOut, sent := sentOut, st := st }
+    | none => throw .runtime
+  let wprep (sw : Val) (x : Val) : Val := if x == sw then .num 0 0 else x
+  match kind with
+  | .packed => throw .notImpl
+  | .wide n =>
+    if red != "and" && red != "or" then throw .notImpl
+    let fr : List Val → Val := fun cells =>
+      let rows := cells.map fun v => match v with | .bytes b => b | _ => List.replicate n 0
+      match rows with
+      | [] => .bytes (List.replicate n 0)
+      | r :: rest => .bytes (rest.foldl (zipBytes (if red == "and" then (· &&& ·) else (· ||| ·))) r)
+    mk kind f.sentinel (degradeOnRead c vc f.file pixels g fr (kind.blank f.sentinel))
+  | .recd fs pr =>
+    if !floatReds.contains red then throw .value
+    if red == "wmean" && !useW then throw .value
+    let fsOut := fs.map auxDT
+    let kindOut := Kind.recd fsOut pr
+    let sentOut := (fs.getD pr (.flt 64) |> auxDT).defaultSentinel
+    let blankOut := kindOut.blank sentOut
+    let fr : List (Val × Val) → Val := fun cw =>
+      let validCW := cw.filter fun p => vc.valid p.1
+      let ws := validCW.map fun p => p.2.numD
+      let fields := (List.range fs.length).map fun i =>
+        let vals := validCW.map fun p => match p.1 with | .recd l => l.getD i (0, 0) | _ => (0, 0)
+        match reduceVals red vals ws (cw.map fun p => p.2.numD) with
+        | none => some ((fsOut.getD i (.flt 64)).defaultSentinel.numD)
+        | some (.num n e) => if (Val.num n e).fits (fsOut.getD i (.flt 64)) then some (n, e) else none
+        | some _ => none
+      if fields.all Option.isSome then .recd (fields.map fun o => o.getD (0, 0)) else .poison
+    let ovf : Val := blankOut
+    match wf, useW with
+    | some w, true =>
+      mk kindOut sentOut (degradeOnReadW c vc f.file w.file w.sentinel (wprep w.sentinel) pixels g fr ovf)
+    | _, _ =>
+      mk kindOut sentOut (degradeOnRead c vc f.file pixels g (fun cells => fr (cells.map (·, Val.num 0 0))) ovf)
+  | .plain dt0 =>
+    -- boolean maps are stored as int16: the on-read path sees an integer array
+    let dt := if dt0 == .bool then DT.int 16 true else dt0
+    if dt.isInt && (red == "and" || red == "or") then
+      let fr : List Val → Val := fun cells =>
+        match cells with
+        | [] => f.sentinel
+        | r :: rest => rest.foldl (if red == "and" then Val.and dt else Val.or dt) r
+      let asNum (v : Val) : Val := match v with | .bool b => .num (if b then 1 else 0) 0 | v => v
+      let kindOut := if dt0 == .bool then Kind.plain .bool else kind
+      mk kindOut f.sentinel (degradeOnRead c vc f.file pixels g (fun cells => fr (cells.map asNum)) f.sentinel)
+    else
+      if !floatReds.contains red then throw .value
+      if red == "wmean" && !useW then throw .value
+      let dtOut := auxDT dt
+      let sentOut := dtOut.defaultSentinel
+      let fr : List (Val × Val) → Val := fun cw =>
+        let validCW := cw.filter fun p => vc.valid p.1
+        match reduceVals red (validCW.map fun p => p.1.numD) (validCW.map fun p => p.2.numD)
+            (cw.map fun p => p.2.numD) with
+        | none => sentOut
+        | some (.num n e) => if (Val.num n e).fits dtOut then .num n e else .poison
+        | some v => v
+      match wf, useW with
+      | some w, true =>
+        mk (.plain dtOut) sentOut (degradeOnReadW c vc f.file w.file w.sentinel (wprep w.sentinel) pixels g fr sentOut)
+      | _, _ =>
+        mk (.plain dtOut) sentOut (degradeOnRead c vc f.file pixels g (fun cells => fr (cells.map (·, Val.num 0 0))) sentOut)
 
 end HS
